@@ -274,7 +274,9 @@ func (p *parser) optionalSemicolon() {
 
 func (p *parser) semicolon() {
 	if p.token != token.RIGHT_PARENTHESIS && p.token != token.RIGHT_BRACE {
-		if p.implicitSemicolon {
+		// A semicolon that is present ends the statement even when it is
+		// on the next line: nothing is inserted (ECMA-262 5.1 - 7.9.1).
+		if p.token != token.SEMICOLON && p.implicitSemicolon {
 			p.implicitSemicolon = false
 			return
 		}
